@@ -64,6 +64,14 @@ func NewGzipResponseWriter(w http.ResponseWriter, contentTypes *regexp.Regexp) *
 }
 
 func (grw *GzipResponseWriter) WriteHeader(code int) {
+	// informational responses (e.g. 103 Early Hints) precede the final
+	// response. The decision whether to compress is made for the final
+	// response and its headers.
+	if code >= 100 && code < 200 && code != http.StatusSwitchingProtocols {
+		grw.ResponseWriter.WriteHeader(code)
+		return
+	}
+
 	if grw.writer == nil {
 		if isCompressable(grw.Header(), grw.contentTypes) {
 			grw.Header().Del(headerContentLength)
